@@ -37,6 +37,8 @@ var recUse = ev.New(prop, "addr-use",
 		"replies first in the resolver list) -> HandleStream/UnpackInPlace, GetTCPClient/GetUDPClient, Proceed/Abort, upstream re-encoding. "+
 		"Non-trivial: the entry point produced exactly the generated address and both the generated router and the fixed cells returned a decision; "+
 		"distinct key = entry + address class + representations present + outcome").
+	Require("gen dom/p0 to:bitmap", "gen dom/p0 to:bitmap/inv", "gen dom/p65535 to:bitmap", "gen dom/p65535 to:bitmap/inv",
+		"gen src/p0 from:bitmap", "gen src/p0 from:bitmap/inv", "gen src/p65535 from:bitmap", "gen src/p0 from:ranges", "gen src/p0 from:single").
 	Require("port0/bitmap", "port0/ranges", "port0/single", "class:dom255", "class:dom1", "class:ip4in6", "entry:socks5-connect", "entry:socks5-udp",
 		"entry:ssnone", "entry:ss2022-tcp", "entry:ss2022-udp", "entry:http-connect", "entry:none-udp", "entry:socks5-assoc", "dns:answered", "gen:inverted-port")
 
@@ -196,6 +198,7 @@ func (d *dnsScript) reply(_ int, _ conn.Addr, queries []byte) []byte {
 type genRouter struct {
 	r       *router.Router
 	portRep map[string]bool // "single", "ranges", "bitmap" present on the destination port
+	crit    map[string]bool // round 6: "to:bitmap", "to:bitmap/inv", "from:ranges", ... present in some route
 	inv     bool
 	nRoutes int
 	dnsS    *dnsScript
@@ -235,7 +238,7 @@ func genPortList(rt *rapid.T, rep string) (ports []uint16, ranges string) {
 
 func genRouterFor(rt *rapid.T, t failer, target wireAddr) *genRouter {
 	routerCells(t) // makes sure the set files exist
-	g := &genRouter{portRep: map[string]bool{}, dnsS: &dnsScript{mode: rapid.IntRange(0, 5).Draw(rt, "dnsMode"), cut: rapid.IntRange(0, 40).Draw(rt, "dnsCut")}}
+	g := &genRouter{portRep: map[string]bool{}, crit: map[string]bool{}, dnsS: &dnsScript{mode: rapid.IntRange(0, 5).Draw(rt, "dnsMode"), cut: rapid.IntRange(0, 40).Draw(rt, "dnsCut")}}
 	n := rapid.IntRange(1, 4).Draw(rt, "nRoutes")
 	g.nRoutes = n
 	cfg := router.Config{
@@ -252,11 +255,18 @@ func genRouterFor(rt *rapid.T, t failer, target wireAddr) *genRouter {
 			rep := rapid.SampledFrom([]string{"single", "ranges", "bitmap", "bitmap"}).Draw(rt, "rep")
 			ports, ranges := genPortList(rt, rep)
 			inv := rapid.IntRange(0, 3).Draw(rt, "invPort") == 0
+			side := "to:"
 			if rapid.IntRange(0, 4).Draw(rt, "portField") == 0 {
 				rc.FromPorts, rc.FromPortRanges, rc.InvertFromPorts = ports, ranges, inv
+				side = "from:"
 			} else {
 				rc.ToPorts, rc.ToPortRanges, rc.InvertToPorts = ports, ranges, inv
 				g.portRep[rep] = true
+			}
+			if inv {
+				g.crit[side+rep+"/inv"] = true
+			} else {
+				g.crit[side+rep] = true
 			}
 			g.inv = g.inv || inv
 			crit++
@@ -326,6 +336,11 @@ func genRouterFor(rt *rapid.T, t failer, target wireAddr) *genRouter {
 	for rep, typ := range map[string]string{"single": "router.DestPortCriterion", "ranges": "router.DestPortRangeSetCriterion", "bitmap": "*router.DestPortSetCriterion"} {
 		if g.portRep[rep] && !strings.Contains(built, typ) {
 			t.Fatalf("harness: generated router claims destination-port representation %s but built criteria are %s", rep, built)
+		}
+	}
+	for rep, typ := range map[string]string{"single": "router.SourcePortCriterion", "ranges": "router.SourcePortRangeSetCriterion", "bitmap": "*router.SourcePortSetCriterion"} {
+		if (g.crit["from:"+rep] || g.crit["from:"+rep+"/inv"]) && !strings.Contains(built, typ) {
+			t.Fatalf("harness: generated router claims source-port representation %s but built criteria are %s", rep, built)
 		}
 	}
 	return g
@@ -458,7 +473,11 @@ func TestAddrUse(t *testing.T) {
 		g := genRouterFor(rt, rt, w)
 		src := netip.AddrPortFrom(
 			rapid.SampledFrom([]netip.Addr{netip.MustParseAddr("127.0.0.1"), netip.MustParseAddr("::ffff:127.0.0.1"), netip.MustParseAddr("2001:db8::9")}).Draw(rt, "srcIP"),
-			rapid.SampledFrom([]uint16{1, 61, 40000, 65535}).Draw(rt, "srcPort"))
+			rapid.SampledFrom([]uint16{1, 61, 40000, 65535, 0}).Draw(rt, "srcPort"))
+		if src.Port() == 0 && !isUDP {
+			// a datagram carries whatever source port its sender wrote (0 included); a TCP connection cannot have source port 0
+			src = netip.AddrPortFrom(src.Addr(), 65535)
+		}
 		info := router.RequestInfo{ServerIndex: rapid.IntRange(0, 1).Draw(rt, "srv"), Username: out.user, SourceAddrPort: src, TargetAddr: out.addr}
 		decision := "?"
 		known := guard(rt, recUse, "route-generated", func() string {
@@ -509,6 +528,26 @@ func TestAddrUse(t *testing.T) {
 		}
 		if g.inv {
 			labels = append(labels, "gen:inverted-port")
+		}
+		for _, k := range []string{"to:single", "to:single/inv", "to:ranges", "to:ranges/inv", "to:bitmap", "to:bitmap/inv"} {
+			if g.crit[k] && w.name != "" && out.addr.IsDomain() {
+				switch w.port {
+				case 0:
+					labels = append(labels, "gen dom/p0 "+k)
+				case 65535:
+					labels = append(labels, "gen dom/p65535 "+k)
+				}
+			}
+		}
+		for _, k := range []string{"from:single", "from:single/inv", "from:ranges", "from:ranges/inv", "from:bitmap", "from:bitmap/inv"} {
+			if g.crit[k] {
+				switch src.Port() {
+				case 0:
+					labels = append(labels, "gen src/p0 "+k)
+				case 65535:
+					labels = append(labels, "gen src/p65535 "+k)
+				}
+			}
 		}
 		if g.dnsS.answered > 0 {
 			labels = append(labels, "dns:answered")
